@@ -163,7 +163,7 @@ Definition number_value (s : str) : res value :=
   else match py_int s with
        | Some z => Ok (VInt z)
        | None => match py_float_parts s with
-                 | Some (neg, m, k) => Ok (VFlt (f_of_dec fo neg m k))
+                 | Some (neg, m, k) => Ok (normalise fo (VFlt (f_of_dec fo neg m k)))
                  | None => Err EExpectedToken
                  end
        end.
